@@ -64,6 +64,18 @@ def begin_persistent():
 
 def end_persistent():
     PERSIST['on'] = False
+    # closure: whatever a persistent atom refers to (radicand of a sqrt, arguments of a function) persists too
+    work = [a for a in U.atoms if a is not None and a.persistent]
+    while work:
+        a = work.pop()
+        args = a.arg if isinstance(a.arg, tuple | list) else ([a.arg] if a.arg is not None else [])
+        for x in args:
+            ids = x.atoms() if hasattr(x, 'atoms') else ()
+            for i in ids:
+                b = U.atoms[i]
+                if b is not None and not b.persistent:
+                    b.persistent = True
+                    work.append(b)
     before = PERSIST['memo'] or (set(), set(), set())
     keep = getattr(U, 'persist_memo', ({}, {}, {}))
     for d, old, dst in zip((U.sqrt_memo, U.abs_memo, U.fn_memo), before, keep, strict=True):
